@@ -271,6 +271,22 @@ def _standalone(text, exp):
             t2 = s2.selectorText
             if t2 != t1:
                 f.append((clause, 'text-differs', t1, t2))
+            if '/*' in t1:
+                # the same selector written with comments dropped (a serializer preference) still denotes the same sequence
+                stage, clause = 'serialise-without-comments', 'C16.roundtrip'
+                cssutils.ser.prefs.keepComments = False
+                try:
+                    t3 = s1.selectorText
+                finally:
+                    cssutils.ser.prefs.keepComments = True
+                stage = 'reparse-without-comments'
+                s3 = cssutils.css.Selector((t3, dict(ref.NS)))
+                if not s3.wellformed:
+                    f.append((clause, 'keepComments=False|reparse-rejected:not-wellformed', t3, 'selector not wellformed'))
+                    return f, obs
+                n3 = nseq(s3)
+                if n3 != n1:
+                    f.append((clause, 'keepComments=False|sequence-differs|' + _seq_diff(n1, n3), n1, n3))
     except (Exception, guard.Timeout) as e:
         f.append((clause, _exc_symptom(e, stage), 'no exception', repr(e)[:300]))
     return f, obs
